@@ -251,6 +251,19 @@ def handle (req : J) : Except String J := do
       (s1, acc.2 ++ [Lean.Json.mkObj [("ok", .bool ok), ("reads", encStrs (reads.map probePrefix))]])) (({} : Runtime.CtxState), [])
     pure (okJ (Lean.Json.mkObj [("items", .arr outs.toArray),
       ("final", encStrs (threads.map (fun t => probePrefix (st.get t))))]))
+  | "ctxops" => do
+    let ops ← (← asArr (← field req "ops")).toList.mapM (fun o => do
+      match (← asArr o).toList with
+      | [.str "enter", t, ps] => do
+        let ps ← (← asArr ps).toList.mapM (fun p => do
+          match (← asArr p).toList with
+          | [.str k, .str v] => pure (k, v)
+          | _ => err "bad patch")
+        pure (Runtime.Op.enter (← asNat t) ps)
+      | [.str "exit", t] => do pure (Runtime.Op.exit (← asNat t))
+      | [.str "read", t] => do pure (Runtime.Op.read (← asNat t))
+      | _ => err "bad op")
+    pure (okJ (encStrs ((Runtime.runOps ops).2.map probePrefix)))
   | "setargs" => do
     let kw ← decStrs (← field req "kw")
     let dkr ← decStrs (← field req "dkr")
